@@ -432,6 +432,62 @@ struct TemplateCore {
                                     }
                                 } while (++offset < end_offset);
 
+                                if (!is_child) {
+                                    // The offsets of this tag are 16 bits wide, and its sub-tags are rendered as part
+                                    // of the true or the false value: a longer tag, or a sub-tag that sits anywhere
+                                    // else (another attribute, text after the values), degrades to plain text.
+                                    const SizeT   t_start = SizeT(tag.Offset + tag.TrueOffset);
+                                    const SizeT   t_end   = SizeT(t_start + tag.TrueLength);
+                                    const SizeT   f_start = SizeT(tag.Offset + tag.FalseOffset);
+                                    const SizeT   f_end   = SizeT(f_start + tag.FalseLength);
+                                    const TagBit *c_tag   = tag.SubTags.First();
+                                    const TagBit *c_end   = tag.SubTags.End();
+                                    bool          usable  = ((end_offset - tag.Offset) <= SizeT{0xFFFF});
+
+                                    while (usable && (c_tag < c_end)) {
+                                        SizeT c_start = 0;
+                                        SizeT c_stop  = 0;
+
+                                        switch (c_tag->GetType()) {
+                                            case TagType::Variable: {
+                                                const VariableTag &v_tag = c_tag->GetVariableTag();
+                                                c_start = SizeT(v_tag.Offset - TagPatterns::VariablePrefixLength);
+                                                c_stop  = SizeT(c_start + v_tag.Length + TagPatterns::VariableFullLength);
+                                                break;
+                                            }
+
+                                            case TagType::RawVariable: {
+                                                const VariableTag &v_tag = c_tag->GetVariableTag();
+                                                c_start = SizeT(v_tag.Offset - TagPatterns::RawVariablePrefixLength);
+                                                c_stop = SizeT(c_start + v_tag.Length + TagPatterns::RawVariableFullLength);
+                                                break;
+                                            }
+
+                                            case TagType::Math: {
+                                                const MathTag &m_tag = c_tag->GetMathTag();
+                                                c_start              = m_tag.Offset;
+                                                c_stop               = m_tag.EndOffset;
+                                                break;
+                                            }
+
+                                            default: {
+                                                // Handled below.
+                                                c_start = t_start;
+                                                c_stop  = t_start;
+                                            }
+                                        }
+
+                                        usable = (((c_start >= t_start) && (c_stop <= t_end)) ||
+                                                  ((c_start >= f_start) && (c_stop <= f_end)));
+                                        ++c_tag;
+                                    }
+
+                                    if (!usable) {
+                                        storage->Drop(SizeT{1});
+                                        break;
+                                    }
+                                }
+
                                 // Set StartID
                                 if ((tag.TrueOffset != SizeT16{0}) || (tag.FalseOffset != SizeT16{0})) {
                                     const TagBit *s_tag     = tag.SubTags.First();
